@@ -80,7 +80,9 @@ def run_case(case, ctx):
         bs = []
         for gi in grp:
             ver = case['versions'][gi]
-            stamp = base + datetime.timedelta(hours=ver['stamp'])
+            stamp = base + datetime.timedelta(hours=ver['stamp'], microseconds=ver.get('us', 0))      # stamps may differ by less than a millisecond
+            if case.get('tz'):
+                stamp = pd.Timestamp(stamp, tz='UTC')        # timezone-aware publication stamps: instants, whatever zone a reader quotes them in
             idx = [dates[i] for i in ver['idx']]
             vals = [float('nan') if v is None else float(v) for v in ver['vals']]
             s = pd.Series(vals, index=pd.DatetimeIndex(idx), dtype=float)
@@ -187,6 +189,8 @@ def check_reads(ctx, store, ledger, stamps, where, mon_prefix=None):
         for what in (-1, 0):
             # the read time in the flavours a caller may hold it in: datetime, pandas Timestamp, numpy datetime64
             Tq = T if T is None or (ti + what) % 3 == 0 else (_pd.Timestamp(T) if (ti + what) % 3 == 1 else np.datetime64(T))
+            if T is not None and getattr(T, 'tzinfo', None) is not None:
+                Tq = _pd.Timestamp(T).tz_convert(['Asia/Tokyo', 'America/New_York', 'UTC'][(ti + what) % 3])      # the same instant quoted in the reader's zone
             st, res = ctx.call(bi_read, store, Tq, what)
             exp = ledger_read(ledger, T, what)
             mon = mon_prefix or ('asof_read_last' if what == -1 else 'asof_read_first')
@@ -235,6 +239,11 @@ def gen_case(rng):
         vals = [rng.choice(pool) for _ in idx]
         versions.append({'stamp': stamp, 'idx': idx, 'vals': vals})
     case = {'ndates': nd, 'versions': versions}
+    if rng.random() < 0.25:
+        us = 0
+        for v_ in versions:            # publications a few hundred microseconds apart
+            us += rng.choice([0, 100, 250, 400])
+            v_['us'] = us
     if rng.random() < 0.3:
         for i_, v_ in enumerate(versions):
             if rng.random() < 0.6:
@@ -243,6 +252,8 @@ def gen_case(rng):
                     v_['idx'] = list(versions[i_ - 1]['idx']); v_['vals'] = [rng.choice(pool) for _ in v_['idx']]
     if rng.random() < 0.25:
         case['future'] = True
+    elif rng.random() < 0.2:
+        case['tz'] = True
     if rng.random() < 0.4:
         batch, left = [], nv
         while left:
